@@ -221,6 +221,21 @@ def sequence_modes(ctx, sq):
     return combos
 
 
+def _stand_ins(repo, sq):
+    """module-level functions stored as they are (not called) in the count / until slots"""
+    out = set()
+    fi = sq.methods.get('_compile')
+    if fi is None:
+        return out
+    for n in ast.walk(fi.node):
+        if isinstance(n, ast.Assign) and isinstance(n.targets[0], ast.Attribute) and n.targets[0].attr in ('get_how_many_elements', 'until_condition'):
+            vals = n.value.values if isinstance(n.value, ast.BoolOp) else [n.value]
+            for v in vals:
+                if isinstance(v, ast.Name) and any(nm == v.id for (_, nm) in repo.module_funcs):
+                    out.add(v.id)
+    return out
+
+
 def check_sequence_unpack(ctx, sq):
     """the events of whatever sits behind Sequence.unpack (store the fresh list, count / when /
     until callbacks with their outcomes, child parse, append, returned offset) form, in every mode
@@ -232,6 +247,13 @@ def check_sequence_unpack(ctx, sq):
         raise Undecided('Sequence.unpack not found')
     combos = sequence_modes(ctx, sq)
     cu = {(c, u) for c, u, _, _ in combos}
+    if cu != {(True, False), (False, True)} and _stand_ins(repo, sq):
+        # the control that was not declared is a function of the module standing in for it
+        # ("exactly one", "stop"): both slots are always set and unpack asks neither which mode
+        # it is in -- another encoding of the modes than the one the table below knows
+        ctx.undecided(rule, sq.methods['_compile'], 'Sequence._compile stores the stand-in %s for the control that was not declared' % sorted(_stand_ins(repo, sq))[0],
+                      'cannot enumerate the modes: (count set, until set) in %s' % sorted(cu), sq.methods['_compile'].node.lineno, clause='c')
+        return
     if cu != {(True, False), (False, True)}:
         ctx.violation(rule, sq.methods['_compile'], 'Sequence._compile leaves (count set, until set) in %s' % sorted(cu),
                       'a repeated field must be compiled to exactly one of count mode / until mode', sq.methods['_compile'].node.lineno, clause='c')
@@ -650,7 +672,9 @@ def check_normalisers(ctx):
                     seen.setdefault(('count' if role == 'count' else 'condition', fid, consts), []).append(attr)
             if not got[attr]:
                 bad[attr] = 'never set to a normalised value'
-        if not bad:
+        if bad and _stand_ins(repo, sqc):
+            ctx.undecided(rule, sq, 'Sequence._compile: %s' % bad, 'a control that was not declared is replaced by a stand-in function of the module: not the routes the rule knows', sq.node.lineno, clause='g')
+        elif not bad:
             ctx.holds(rule, sq, 'Sequence._compile: count / until / when each normalised from its own constructor slot %s' % order, 'declared roles, same order as stored by the constructor', sq.node.lineno, clause='g')
         else:
             ctx.violation(rule, sq, 'Sequence._compile: %s' % bad, 'count / until / when are not routed through a normaliser from their own slots', sq.node.lineno, clause='g')
